@@ -4,11 +4,11 @@ CONSTANTS
   RowChoices <- RowsT
   MaxObj = 2
   MaxBpm = 3
-  PosSet = {0, 1, 3, 5, 7, 11, 13, 19, 23, 31}
-  TailGap = {1, 2, 4, 9}
+  PosSet = {0, 1, 5, 11, 19, 31}
+  TailGap = {1, 4, 9}
   OffSet <- OffsAll
-  BlSet = {50000, 25000, 37500}
-  EmitMod = 101
+  BlSet = {50000, 37500}
+  EmitMod = 61
   Emit = TRUE
 INVARIANT DenotationTotal
 INVARIANT TimesIncrease
